@@ -18,14 +18,14 @@ def register(prop, J):
              J("select-v1", "v1", "d2props", "^TestC19", checks=(2000, 100000), shards=(8, 16), env={"C19_PART": "select", "GOGC": "800"}),
              J("edge-v1", "v1", "d2props", "^TestC19", checks=(4000, 200000), shards=(4, 16), env={"C19_PART": "edge", "GOGC": "800"}),
          ],
-         exhaustive=True,
          level_text="generated-input search against a reference model written from the property text (fold of the event history, "
                     "eligible-host set): every event history up to the stated length over a small alphabet is enumerated and each "
                     "prefix compared with the fold, with all earlier snapshots re-inspected; longer histories, richer payloads and "
                     "announcement sets are sampled; proportionality is a statistical statement (stated tolerance); no absence proof "
                     "beyond the enumerated alphabet",
          level_note="starts at the TreeCacheEvent boundary (treecache.go needs a live ZooKeeper connection); the package rng is "
-                    "replaced through the verif hook",
+                    "replaced through the verif hook; the edge-* jobs script the rng to the ends of its range (Float64() == 0 and "
+                    "1-2^-53), which a seeded generator reaches with probability 2^-63 and about 2^-53 per selection",
          technique="property-based testing (rapid) + bounded exhaustive enumeration with a reference model; seeded and scripted rng "
                    "for selection frequencies",
          design_ref="2/C19",
